@@ -12,3 +12,4 @@ import CC.Thm.C07
 #print axioms CC.Thm.C07.source_kernels_match
 #print axioms CC.Thm.C07.source_literals_match
 #print axioms CC.Thm.C07.source_glue_match
+#print axioms CC.Thm.C07.source_dataflow_match
